@@ -281,7 +281,8 @@ class RDFWriter(object):
 
         for k in fmt.rdf_map_keys:
             curr_pred = fmt.rdf_map(k)
-            curr_val = getattr(sec, k)
+            # An attribute can be missing altogether: Section.definition has a deleter.
+            curr_val = getattr(sec, k, None)
 
             # Ignore an "id" entry, it has already been used to create the node itself.
             if k == "id" or not curr_val:
